@@ -20,6 +20,24 @@ fn bestmove(rx: &std::sync::mpsc::Receiver<UciTxCommand>) -> Option<String> {
     }
 }
 
+fn run_movetime(fen: &str, movetime_ms: u64) -> Result<(), String> {
+    let (tx, rx) = channel();
+    let mut engine = Engine::new(Arc::new(CommandUciTx::new(tx)), false);
+    engine.accept(UciCommand::UciNewGame);
+    let parsed: Fen = fen.parse().unwrap();
+    engine.accept(UciCommand::PositionFrom { fen: parsed, moves: vec![] });
+    engine.accept(UciCommand::Go { go: Go { move_time: Some(Duration::from_millis(movetime_ms)), ..Go::default() } });
+    let _ = bestmove(&rx);
+    engine.accept(UciCommand::Go { go: Go { depth: Some(1), ..Go::default() } });
+    let answer = bestmove(&rx);
+    let mut board = Bitboard::from_fen_string_unchecked(fen);
+    let legal: Vec<String> = board.generate_legal_moves().iter().map(|m| m.to_uci_string()).collect();
+    match answer {
+        Some(mv) if legal.contains(&mv) => Ok(()),
+        other => Err(format!("fen={:?} go movetime {} (expires mid-iteration), go depth 1 -> bestmove {:?} which is not legal there", fen, movetime_ms, other)),
+    }
+}
+
 fn run(fen: &str, interrupt_ms: u64) -> Result<(), String> {
     let (tx, rx) = channel();
     let mut engine = Engine::new(Arc::new(CommandUciTx::new(tx)), false);
@@ -49,6 +67,17 @@ fn witness_c09_stop_then_go() {
         ("rnbqkbnr/pppppppp/8/8/8/8/PPPPPPPP/RNBQKBNR w KQkq - 0 1", 6000),
     ] {
         if let Err(e) = run(fen, ms) {
+            println!("FAILING-INPUT: {}", e);
+            bad += 1;
+        }
+    }
+    for (fen, ms) in [
+        ("r3k2r/pppq1ppp/2n2n2/3pp3/3PP3/2N2N2/PPPQ1PPP/R3K2R w KQkq - 0 10", 700u64),
+        ("r3k2r/pppq1ppp/2n2n2/3pp3/3PP3/2N2N2/PPPQ1PPP/R3K2R w KQkq - 0 10", 1600),
+        ("r1bq1rk1/pp2bppp/2n1pn2/2pp4/3P1B2/2PBPN2/PP1N1PPP/R2QK2R w KQ - 0 8", 1100),
+        ("r1bq1rk1/pp2bppp/2n1pn2/2pp4/3P1B2/2PBPN2/PP1N1PPP/R2QK2R w KQ - 0 8", 2300),
+    ] {
+        if let Err(e) = run_movetime(fen, ms) {
             println!("FAILING-INPUT: {}", e);
             bad += 1;
         }
